@@ -425,6 +425,11 @@ func (x *Exec) step(op *Op) {
 			return
 		}
 		x.rmIndex(op.Segs)
+	case "ixprobe":
+		if x.l != nil {
+			return
+		}
+		x.ixProbe(op)
 	case "trim":
 		if x.l == nil || x.cur.RO {
 			return
